@@ -217,6 +217,13 @@ def step (st : State) (w : List String) : State × String :=
       else (st, "bad-op")
     | _, _, _, _ => (st, "bad-op")
   -- `msg doq lib=<outcome of the library for the message with Id 0>`: the DoQ writer sends that frame, id 0
+  -- `msg doh <get|post> lib=<outcome>`: `dohResponse` — the library's outcome decides, the packer is not on this path
+  | ["msg", "doh", _method, libo] =>
+    match kv "lib" libo with
+    | some lo =>
+      if lo.startsWith "ok/" then (st, s!"200 {lo}")
+      else if lo == "panic" then (st, "panic") else (st, "500")
+    | none => (st, "bad-op")
   | ["msg", "stripped"] => (st, "unmodelled")
   | ["msg", "doq", libo] =>
     match kv "lib" libo with
